@@ -18,6 +18,9 @@ def factory(prop):
     if prop == "C08":
         from engines.checkpoints import CheckpointCheck
         return CheckpointCheck()
+    if prop in ("C12", "C13"):
+        from engines.mem import MemCheck
+        return MemCheck(prop)
     raise SystemExit(f"unknown property {prop}")
 
 
